@@ -9,8 +9,10 @@ VERIF = os.path.dirname(HERE)
 HARNESSES = {
     'max_chunk_data_is_the_largest_fit': {'props': ['C19', 'C03'], 'function': 'body::max_chunk_data + body::hex_len',
         'bound': 'FULL usize domain; loops bounded by the operand width (unwind 18, unwinding assertions on): complete for these two functions'},
-    'calculate_max_input_closed_form': {'props': ['C18'], 'function': 'body::calculate_max_input',
-        'bound': 'every n < 2^32 (loop-free; the full 64-bit domain verified once in 1374 s, see DESIGN 5.3)'},
+    'calculate_max_input_le_n_and_monotone': {'props': ['C18'], 'function': 'body::calculate_max_input',
+        'bound': 'every n < 2^32 (loop-free): result <= n and calculate_max_input(n) <= calculate_max_input(n + 1)'},
+    'calculate_max_input_is_consumed_by_the_greedy_writer': {'props': ['C18'], 'function': 'body::calculate_max_input + body::max_chunk_data',
+        'bound': 'every n < 32768 (<= 4 chunks): the greedy chunk writer consumes the advertised maximum whole'},
     'compare_lowercase_ascii_against_chunked': {'props': ['C06', 'C17'], 'function': 'util::compare_lowercase_ascii',
         'bound': 'all valid UTF-8 strings of 0..=8 bytes against the constant "chunked" (the only second argument in the crate); unwind 10 with unwinding assertions'},
     'compare_lowercase_ascii_against_gzip': {'props': ['C06', 'C17'], 'function': 'util::compare_lowercase_ascii',
